@@ -188,6 +188,57 @@ def wbuf(V, nslices, nbuf):
     return cl
 
 
+def wbuf_live(V, nslices, nbuf):
+    """every SRAM weight buffer of an operation is alive while the operation runs: the REAL extract_live_ranges_from_schedule (and through it the
+    real LiveRange.mark_usage) on two consecutive stand-in operations, each with `nbuf` buffered weight tensors and `nslices` depth slices; which
+    buffers were pre-buffered (their DMA issued during the previous operation) is symbolic.  With the allocators' reading of a live range
+    (alive at every step start..end, both included): each buffer's range is marked and contains the operation's time step t; a pre-buffered one
+    already at t-1; the one holding the last slice still at t+1 (where the operation's feature maps end); and nothing is alive before step 0.
+    An unmarked range has no neighbours for any allocator, so its bytes are handed to a tensor that is live at the same time."""
+    import ethosu.vela.live_range as lrm
+    from ethosu.vela.operation import Op
+    from ethosu.vela.tensor import Tensor, MemArea, MemType, TensorPurpose
+    from ethosu.vela.data_type import DataType
+
+    def wb(name):
+        t = Tensor([1, 1, 1, 256], DataType.uint8, name)
+        t.purpose, t.mem_area, t.mem_type = TensorPurpose.Weights, MemArea.Sram, MemType.Scratch_fast
+        t.pre_buffer = bool(V.bool(name + "_pre_buffered"))
+        return t
+
+    fms = [_tensor("fm%d" % i, [1, 8, 8, 16], DataType.int8) for i in range(3)]
+    ops, cost, bufs = [], {}, {}
+    for i in range(2):
+        so = _Obj(op_type=Op.Conv2DBias, name="op%d" % i, index=i, parent_op=_Obj(ofm=fms[i + 1], memory_function=None),
+                  parent_ps=_Obj(inputs=[fms[i]], outputs=[fms[i + 1]], intermediates=[], ifm_tensor=fms[i]))
+        bufs[so] = [wb("op%d_buffer%d" % (i, k)) for k in range(nbuf)]
+        cost[so] = _Obj(cascade=0, buffered_weight_tensors=bufs[so], ofm_depth_slices=[16 * k for k in range(nslices + 1)], time_index=None)
+        ops.append(so)
+    sg = _Obj(sched_ops=ops, schedule=_Obj(cost_map=cost, cascades={}), output_tensors=[fms[2]])
+    with core.shims((lrm, {"max": core.smax, "min": core.smin})):
+        g = lrm.extract_live_ranges_from_schedule(sg, MemArea.Sram, {MemType.Scratch_fast}, lrm.LiveRangeGraph())
+    cl = []
+    for so in ops:
+        t = cost[so].time_index
+        cl.append(("%s: time step recorded" % so.name, t is not None))
+        if t is None:
+            continue
+        fm = g.ranges.get(so.parent_op.ofm)
+        cl.append(("%s: its output is alive at its time step" % so.name, z3.And(L(fm.start_time) <= L(t), L(fm.end_time) >= L(t)) if fm is not None else False))
+        for k, b in enumerate(bufs[so]):
+            r = g.ranges.get(b)
+            cl.append(("%s has a live range" % b.name, r is not None))
+            if r is None:
+                continue
+            cl.append(("%s is alive at step %s of its operation" % (b.name, t), z3.And(L(r.start_time) <= L(t), L(r.end_time) >= L(t))))
+            cl.append(("%s is not alive before step 0" % b.name, L(r.start_time) >= 0))
+            if b.pre_buffer and int(t) >= 1:
+                cl.append(("%s (pre-buffered) is already alive one step earlier" % b.name, L(r.start_time) <= L(t) - 1))
+            if k == (nslices - 1) % nbuf:
+                cl.append(("%s holds the last depth slice and stays alive to the end of the operation (step t+1)" % b.name, L(r.end_time) >= L(t) + 1))
+    return cl
+
+
 def lr_rolling(V, cin, mid_dtype, out_dtype):
     """two sites must agree on the bytes of a cascade's rolling buffer: cascade_builder.BufferMap.get_buffer (what the scheduler
     budgets and what the buffer's addresses wrap at) and extract_live_ranges_from_schedule (what the allocator reserves).  Real code
@@ -405,7 +456,7 @@ def ifm_fuse(V, kind):
     class T:
         def __init__(self, tag):
             self.name = tag
-            self.purpose, self.mem_area, self.mem_type = TensorPurpose.FeatureMap, MemArea.Sram, MemType.Scratch
+            self.purpose = TensorPurpose.FeatureMap
             self.shape = [1, 8, 8, 16]
             self.format, self.dtype = Attr(tag + "_format"), Attr(tag + "_dtype")
             self.consumer_list = Consumers(tag)
@@ -413,6 +464,14 @@ def ifm_fuse(V, kind):
         @property
         def ifm_write_protected(self):
             return flag(self.name + "_write_protected")
+
+        @property
+        def mem_area(self):  # the arena being allocated is (Sram, {Scratch}); with spilling a tensor may live in the other one
+            return MemArea.Sram if flag(self.name + "_in_target_area") else MemArea.Dram
+
+        @property
+        def mem_type(self):
+            return MemType.Scratch if flag(self.name + "_has_target_mem_type") else MemType.Scratch_fast
 
     ofm = T("ofm")
     ofm.format, ofm.dtype = Attr("ofm"), Attr("ofm")
@@ -426,12 +485,19 @@ def ifm_fuse(V, kind):
     ifm2 = T("ifm2") if kind == "binary" else None
     this.__dict__.update(ifm=ifm, ifm2=ifm2, ofm=ofm, ifm_shapes=[Attr("ifm_op_shape"), Attr("ifm2_op_shape")], ofm_shapes=[Attr("ofm")], memory_function=None)
     sop = O(parent_op=this, op_type={"memcpy": Op.Memcpy, "binary": Op.Add, "unary": Op.Abs}[kind])
-    got = lr._get_ifm_to_fuse(sop, MemArea.Sram, {MemType.Scratch})
-    if got is None:
-        return None  # nothing fused: nothing to claim on this path
+    fused = []
+    graph = O(fuse_ranges=lambda a, b: fused.append((a, b)))
+    lr.merge_elementwise_op_ranges(None, sop, graph, MemArea.Sram, {MemType.Scratch})  # as extract_live_ranges_from_schedule calls it for one arena
+    direct = lr._get_ifm_to_fuse(sop, MemArea.Sram, {MemType.Scratch})
+    if not fused:
+        return None if direct is None else [("a fusable input reported by _get_ifm_to_fuse is fused by merge_elementwise_op_ranges", False)]
+    got = fused[0][0]
     cons = [c for c in got.consumer_list]
     t = got.name
-    cl = [("the fused tensor is an input of the operation", got is ifm or got is ifm2),
+    in_arena = lambda n: z3.And(B(flag(n + "_in_target_area")), B(flag(n + "_has_target_mem_type")))  # noqa: E731
+    cl = [("exactly one pair is fused: an input with the operation's output", len(fused) == 1 and fused[0][1] is ofm),
+          ("the fused tensor is an input of the operation", got is ifm or got is ifm2),
+          ("input and output both live in the arena being allocated (fusing across arenas gives one tensor two addresses)", z3.And(in_arena(t), in_arena("ofm"))),
           ("the fused input has exactly one reader, this operation (a None entry is a reader outside the subgraph)", len(cons) == 1 and cons[0] is this)]
     if kind != "memcpy":
         cl += [("the fused input is not write protected", z3.Not(B(flag(t + "_write_protected")))),
@@ -508,7 +574,7 @@ def lut_dma(V, C, nslices):
     return claims
 
 
-FUNCS = {"weight_ranges": weight_ranges, "lut_dma": lut_dma, "rolling_dims": rolling_dims, "ifm_fuse": ifm_fuse, "format_rules": format_rules, "buffering": buffering, "lut": lut, "wbuf": wbuf, "rolling": rolling, "lr_rolling": lr_rolling, "build_twice": build_twice, "memcpy": memcpy, "wbuf_sizes": wbuf_sizes}
+FUNCS = {"wbuf_live": wbuf_live, "weight_ranges": weight_ranges, "lut_dma": lut_dma, "rolling_dims": rolling_dims, "ifm_fuse": ifm_fuse, "format_rules": format_rules, "buffering": buffering, "lut": lut, "wbuf": wbuf, "rolling": rolling, "lr_rolling": lr_rolling, "build_twice": build_twice, "memcpy": memcpy, "wbuf_sizes": wbuf_sizes}
 
 
 def instances(tier, seed):
@@ -525,6 +591,7 @@ def instances(tier, seed):
     for nslices in range(1, 8):
         for nbuf in (1, 2):
             out.append(dict(key="wbuf/s%d_b%d" % (nslices, nbuf), fn="wbuf", params=dict(nslices=nslices, nbuf=nbuf)))
+            out.append(dict(key="wbuf_live/s%d_b%d" % (nslices, nbuf), fn="wbuf_live", params=dict(nslices=nslices, nbuf=nbuf)))
     for cin in (1, 2, 3, 5, 8):
         for md, od in (("int8", "int8"), ("int16", "int8"), ("int8", "int16"), ("int16", "int16")):
             out.append(dict(key="lr_rolling/cin%d/%s_%s" % (cin, md, od), fn="lr_rolling", params=dict(cin=cin, mid_dtype=md, out_dtype=od)))
